@@ -77,8 +77,11 @@ func (ch *ConnectionHandler) acceptStream() {
 			log.Debugf("Stream closed, existing loop.")
 			return
 		} else if err != nil {
-			log.WithError(err).Errorf("Error accepting stream: %v", err)
-			continue
+			// No accept deadline is set, so every error is permanent: the session was closed, the carrier is
+			// gone or the peer violated the protocol. It will never deliver another stream.
+			log.WithError(err).Errorf("Error accepting stream, ending the session: %v", err)
+			streams.TryClose(ch.session)
+			return
 		}
 		stream = streams.NewNamedConnection(stream, stream.RemoteAddr().String())
 		log.Debugf("[Server] New logical connection accepted: %v", stream)
